@@ -38,6 +38,13 @@ def gen_probe_ops(rng, qual, fnir, pid, quarantine):
 def gen(rng, tier, quarantine=()):
     prog, fns = fn_table("forms")
     qual, fnir = rng.choice(fns)
+    generated = None
+    if "no-generated-programs" not in quarantine and rng.random() < 0.5:
+        from .. import progen
+
+        generated, is_gen = progen.gen_program(rng)
+        fns = ir.all_functions(generated)
+        qual, fnir = "rf", dict(fns)["rf"]
     inst = "k1"
     ops = []
     route = rng.choice(["copy", "inplace", "probes", "probes", "probes", "probes"])
@@ -63,7 +70,7 @@ def gen(rng, tier, quarantine=()):
     short = qual.split(".")[-1]
     for c in range(ncalls):
         nf = rng.choice([0, 0, 1, 1, 2])
-        if short in GEN_FNS and rng.random() < 0.7:
+        if (short in GEN_FNS or (generated and is_gen)) and rng.random() < 0.7:
             g = f"g{c}"
             ops.append({"op": "gen_new", "gen": g, "fn": qual, "nargs": 1})
             for _ in range(rng.randint(1, 6)):
@@ -75,7 +82,10 @@ def gen(rng, tier, quarantine=()):
             op["tape"] = gen_tape(rng, rng.randint(0, tl))
             op["faults"] = gen_faults(rng, 30, nf)
             ops.append(op)
-    return {"prog": "forms", "ops": ops}
+    sc = {"prog": "forms", "ops": ops}
+    if generated:
+        sc.update({"prog": "generated", "program": generated, "prog_name": f"gen{rng.randrange(1 << 40):x}"})
+    return sc
 
 
 def run(scenario):
